@@ -781,6 +781,10 @@ def write_ev(prop, tier, seed, results, samples, xcheck, build_s, wall, violatio
                        'VM effects per instruction as extracted from vm/mod.rs on this run; operand arities from the hand-written table in bytecode/encoder.py',
                        'programs outside the generated family are not covered',
                        'native replay contexts: a fixed family of 14 contexts over the variables the generator uses']
+    if 'Bs' in extra_ev:
+        # C12: the VM use-site audit (bytecode/sites.py) rides along with the Kani kernels
+        cov['vm_sites'] = extra_ev['Bs'].get('coverage', {})
+        assumptions = assumptions + ['VM use sites: the guard each eval_impl arm applies is classified from the text of vm/mod.rs on this run (an arm that cannot be classified is inconclusive); the full (mode, operand) matrix of every site is also rendered natively as validation']
     if 'L' in extra_ev:
         kcov = cov
         cov = dict(extra_ev['L'].get('coverage', {}))
